@@ -168,11 +168,12 @@ def walkCore (e : Env) (s : St) (lh : Int) (dest : Nat) (prune : Bool) : St × B
   let r1 := walk.undoAll e prune ut.1 s0
   if !r1.2 then (r1.1, false) else walk.todoAll e lh ut.2 r1.1
 
-/-- `walk` = `walkCore`, then (on success) the re-admission of the old pool -/
+/-- `walk` = `walkCore`, then (on success) the re-admission of the old pool (`repostList e s`: the rolled-back pending
+transactions except those the ledger records as confirmed on the chain walked to) -/
 theorem walk_eq_core (e : Env) (s : St) (lh : Int) (dest : Nat) (prune : Bool) :
     walk e s lh dest prune =
       if (walkCore e s lh dest prune).2 = true then
-        (s.pool.foldl (fun st i => (doTx e st lh i).1) (walkCore e s lh dest prune).1, true)
+        ((repostList e s).foldl (fun st i => (doTx e st lh i).1) (walkCore e s lh dest prune).1, true)
       else ((walkCore e s lh dest prune).1, false) := by
   rw [walk_eq]
   unfold walkCore
@@ -195,7 +196,8 @@ theorem walk_ok_iff_core (e : Env) (s : St) (lh : Int) (dest : Nat) (prune : Boo
 /-- with an empty pool there is nothing to put back -/
 theorem walk_eq_core_of_pool_nil (e : Env) (s : St) (lh : Int) (dest : Nat) (prune : Bool) (hp : s.pool = []) :
     walk e s lh dest prune = walkCore e s lh dest prune := by
-  rw [walk_eq_core, hp]
+  have hr : repostList e s = [] := by unfold repostList; rw [hp]; rfl
+  rw [walk_eq_core, hr]
   cases h : (walkCore e s lh dest prune).2 with
   | false =>
     simp only [Bool.false_eq_true, ↓reduceIte]
@@ -242,7 +244,7 @@ theorem mem_walkMid (e : Env) (s : St) (lh : Int) (dest : Nat) (prune : Bool) (x
 theorem mem_walkRepost (e : Env) (s : St) (lh : Int) (dest : Nat) (prune : Bool) (x : St)
     (hx : x ∈ walkRepost e s lh dest prune) :
     (walkCore e s lh dest prune).2 = true ∧
-    ∃ A B, s.pool = A ++ B ∧ A ≠ [] ∧ x = A.foldl (fun st i => (doTx e st lh i).1) (walkCore e s lh dest prune).1 := by
+    ∃ A B, repostList e s = A ++ B ∧ A ≠ [] ∧ x = A.foldl (fun st i => (doTx e st lh i).1) (walkCore e s lh dest prune).1 := by
   unfold walkRepost at hx
   unfold walkCore
   simp only at hx ⊢
